@@ -22,9 +22,12 @@ Record mstate := mk_m {
   m_reg : reg;                 (* ID allocation *)
   m_pres : registry;           (* ID -> entry *)
   m_ids : gmap N N;            (* connection token -> ID *)
-  m_order : list N             (* connected IDs, ascending *)
+  m_order : list N;            (* connected IDs, ascending *)
+  m_conn : gmap N (N * bool);  (* ID -> account of the connection (0 "usr", 1 "adm") and whether the connection's OWN
+                                  copy of the account holds disconnect-users (what Authorize looks at) *)
+  m_mgr : bool * bool          (* does the stored account hold disconnect-users: ("usr", "adm") *)
 }.
-Definition m0 : mstate := mk_m reg0 ∅ ∅ [].
+Definition m0 : mstate := mk_m reg0 ∅ ∅ [] ∅ (false, true).
 
 Fixpoint insert_sorted (x : N) (l : list N) : list N :=
   match l with
@@ -37,7 +40,9 @@ Definition remove_id (x : N) (l : list N) : list N := filter (fun y => negb (y =
 Definition inboxes (order : list N) (f : N -> list N) : list (list N) :=
   map (fun c => be16 c ++ f c) order.
 
-Definition admin_flags (admin : list N) : N := if bytes_eqb admin [1] then 2 else 0.
+Definition which_of (admin : list N) : N := if bytes_eqb admin [1] then 1 else 0.
+Definition mgr_disc (m : bool * bool) (which : N) : bool := if which =? 1 then snd m else fst m.
+Definition admin_flags (m : bool * bool) (admin : list N) : N := if mgr_disc m (which_of admin) then 2 else 0.
 Definition REFUSED_SUFFIX : list N :=   (* " does not accept private messages." *)
   [32;100;111;101;115;32;110;111;116;32;97;99;99;101;112;116;32;112;114;105;118;97;116;101;32;109;101;115;115;97;103;101;115;46].
 
@@ -48,11 +53,13 @@ Definition step (s : mstate) (o : dop) : mstate * list (list N) :=
   | 1 | 2 =>   (* login with a name (1.2.3 flow) / without (1.5 flow) *)
       let '(r', id) := add (m_reg s) tok in
       let named := code =? 1 in
-      let i := if named then mk_info (a 1 args) (a 2 args) (admin_flags (a 3 args))
-               else mk_info [] (match a 1 args with [] => [0; 0] | ic => ic end) (admin_flags (a 2 args)) in
+      let adm := if named then a 3 args else a 2 args in
+      let i := if named then mk_info (a 1 args) (a 2 args) (admin_flags (m_mgr s) adm)
+               else mk_info [] (match a 1 args with [] => [0; 0] | ic => ic end) (admin_flags (m_mgr s) adm) in
       let p := if named then LoginNamed id i else LoginLimbo id i in
       let order' := insert_sorted id (m_order s) in
-      (mk_m r' (srv (m_pres s) p) (<[tok := id]> (m_ids s)) order',
+      (mk_m r' (srv (m_pres s) p) (<[tok := id]> (m_ids s)) order'
+            (<[id := (which_of adm, mgr_disc (m_mgr s) (which_of adm))]> (m_conn s)) (m_mgr s),
        [be16 id] ++ inboxes order' (fun c => if (c =? id) || negb named then [] else render_change id i))
   | 3 | 4 =>   (* Agreed / SetClientUserInfo *)
       match m_ids s !! tok with
@@ -71,7 +78,7 @@ Definition step (s : mstate) (o : dop) : mstate * list (list N) :=
                           then (if N.testbit opts 2 then Some (a 4 args) else if agreed then None else Some [])
                           else None in
               let i := mk_info (a 1 args) icon fl in
-              (mk_m (m_reg s) (srv (m_pres s) (Announce id i auto)) (m_ids s) (m_order s),
+              (mk_m (m_reg s) (srv (m_pres s) (Announce id i auto)) (m_ids s) (m_order s) (m_conn s) (m_mgr s),
                inboxes (m_order s) (fun c => if (c =? id) && agreed then [] else render_change id i))
           end
       end
@@ -80,7 +87,7 @@ Definition step (s : mstate) (o : dop) : mstate * list (list N) :=
       | None => (s, [])
       | Some id =>
           let order' := remove_id id (m_order s) in
-          (mk_m (del (m_reg s) id) (srv (m_pres s) (Leave id)) (delete tok (m_ids s)) order',
+          (mk_m (del (m_reg s) id) (srv (m_pres s) (Leave id)) (delete tok (m_ids s)) order' (delete id (m_conn s)) (m_mgr s),
            inboxes order' (fun _ => render_delete id))
       end
   | 6 =>       (* fetch the user list *)
@@ -109,7 +116,30 @@ Definition step (s : mstate) (o : dop) : mstate * list (list N) :=
   | 8 =>       (* k connect/disconnect cycles at the registry level *)
       let k := N.to_nat (num (a 0 args)) in
       let r := Nat.iter k (fun r => let '(r', id) := add r 0 in del r' id) (m_reg s) in
-      (mk_m r (m_pres s) (m_ids s) (m_order s), [])
+      (mk_m r (m_pres s) (m_ids s) (m_order s) (m_conn s) (m_mgr s), [])
+  | 9 =>       (* privilege change (HandleSetUser by a logged-in administrator): args token, account, new disconnect-users bit.
+                  Every connection logged in to the account gets the admin flag its OWN copy of the account justified
+                  BEFORE the update (the handler tests Authorize first and copies the new bitmap afterwards), and that
+                  change is announced to everybody, the changed user and the requester included *)
+      match m_ids s !! tok with
+      | None => (s, [])
+      | Some _ =>
+          let which := num (a 1 args) in
+          let nd := num (a 2 args) =? 1 in
+          let affected := filter (fun c => match m_conn s !! c with Some (w, _) => w =? which | None => false end) (m_order s) in
+          let upd (c : N) : option info :=
+            match m_pres s !! c, m_conn s !! c with
+            | Some e, Some (_, od) =>
+                Some (mk_info (i_name (e_info e)) (i_icon (e_info e)) (set_flag (i_flags (e_info e)) FLAG_ADMIN od))
+            | _, _ => None
+            end in
+          let pres' := fold_left (fun r c => match upd c with Some i => srv r (Announce c i None) | None => r end)
+                                 affected (m_pres s) in
+          let conn' := fold_left (fun m c => <[c := (which, nd)]> m) affected (m_conn s) in
+          let mgr' := if which =? 1 then (fst (m_mgr s), nd) else (nd, snd (m_mgr s)) in
+          (mk_m (m_reg s) pres' (m_ids s) (m_order s) conn' mgr',
+           inboxes (m_order s) (fun _ => concat (map (fun c => match upd c with Some i => render_change c i | None => [] end) affected)))
+      end
   | _ => (s, [])
   end.
 
@@ -212,6 +242,7 @@ Definition ostep (s : ostate) (o : dop) (obs : list (list N)) : ostate * bool :=
       | Some id => (mk_o (o_ids s) (filter (fun x => negb (x =? id)) (o_limbo s)) (fold_inboxes (o_rosters s) obs), true)
       | None => (s, true)
       end
+  | 9 => (mk_o (o_ids s) (o_limbo s) (fold_inboxes (o_rosters s) obs), true)
   | 5 =>
       match lookup_tok tok (o_ids s) with
       | Some id => (mk_o (filter (fun p => negb (fst p =? tok)) (o_ids s))
